@@ -46,9 +46,13 @@ def build(repo=None):
     # requires prefix.isidentifier() (it is the function's own first assert: an obligation for callers)
     st.pc = [isident(prefix)]
     loops = [x for x in ast.walk(g) if isinstance(x, (ast.While, ast.For))]
-    if len(loops) != 1 or not isinstance(loops[0], ast.While):
-        raise Unsupported("_gensym: expected exactly one while loop")
+    if len(loops) != 1:
+        raise Unsupported("_gensym: expected exactly one loop")
     loop = loops[0]
+    counting = isinstance(loop, ast.For)
+    if counting and not (isinstance(loop.iter, ast.Call) and ast.unparse(loop.iter.func) in ("it.count", "itertools.count", "count") and not loop.iter.keywords and not loop.orelse and isinstance(loop.target, ast.Name)
+                         and (not loop.iter.args or (len(loop.iter.args) == 1 and isinstance(loop.iter.args[0], ast.Constant) and loop.iter.args[0].value == 0))):
+        raise Unsupported("_gensym: a for loop that is not `for <index> in itertools.count()`")
     stored = sorted({n.id for n in ast.walk(loop) if isinstance(n, ast.Name) and isinstance(n.ctx, ast.Store)})
     i = z3.Int("i")
     ident_axiom = lambda k: z3.Implies(z3.And(isident(prefix), k >= 0), isident(z3.Concat(prefix, str_int(k))))
@@ -97,7 +101,37 @@ def build(repo=None):
                     outs.append((s3, NORMAL))
         return outs
 
-    eng.loop_specs[id(loop)] = while_handler
+    def count_handler(e, node, s0):
+        # `for index in itertools.count(): ...`: no state is carried between iterations except through the names the body stores, which are
+        # havocked; the loop is left only by break / return / raise, at an arbitrary index i >= 0 (0, 1, 2, ... in order)
+        s1 = s0.clone()
+        for v in stored:
+            x = s1.env.get(v)
+            if isinstance(x, Z) and x.kind in ("str", "int", "bool"):
+                s1.env[v] = Z(x.kind, z3.FreshConst(x.t.sort(), "carried_" + v))
+            elif x is not None:
+                s1.env[v] = Opaque("carried:" + v)
+        s1.env[node.target.id] = Z("int", i)
+        s1.pc.append(i >= 0)
+        s1.path.append("gensym:iter")
+        outs = []
+        # nothing is assumed about the carried names, so the invariant is `true`; the index increases by the contract of itertools.count
+        e.oblige(s0, "gensym:loop-invariant-on-entry", z3.BoolVal(True))
+        for s4, o4 in e.run(node.body, s1):
+            if o4.kind in ("normal", "continue"):
+                e.oblige(s4, "gensym:loop-invariant-preserved", z3.BoolVal(True))
+                e.oblige(s4, "gensym:index-strictly-increases", z3.BoolVal(isinstance(s4.env.get(node.target.id), Z) and s4.env[node.target.id].t.eq(i)))  # the body does not rebind the index
+            if o4.kind == "break":
+                s4.path.append("gensym:exit")
+                s4.pc.append(ident_axiom(i))
+                outs.append((s4, NORMAL))
+            elif o4.kind in ("normal", "continue"):
+                pass  # goes on with the next index, which the arbitrary i covers
+            else:
+                outs.append((s4, o4))
+        return outs
+
+    eng.loop_specs[id(loop)] = count_handler if counting else while_handler
     for s1, o in eng.run(g.body, st):
         paths += 1
         if o.kind == "return" and isinstance(o.val, Z) and o.val.kind == "str":
